@@ -1,12 +1,28 @@
 /-
   Props/C02.lean — decode → encode → decode returns the same map.
-  First layer: the line-level inverses (value text survives `key: value` framing; integers survive
-  `Display`/`FromStr`). The section- and map-level layers are in Lemmas/EncodeLines.lean as they are proved.
+
+  Proved here (helper lemmas in Lemmas/{Digits,EncodeLines,CodecLaws,Rt*}.lean):
+  * layer 1, line level: `kvSplit_kvLine`, `kv_line_roundtrip` (a self-trimmed value, empty included, comes back
+    from the end-trimmed `key: value` line), the integer codec (`int_display_parse`: the model's own
+    `Display`/`FromStr` for `i32`, `u32`, `u8` — no hypothesis);
+  * layer 2, section level, for each of the six record sections: the block the encoder writes, run through that
+    section's parser from the decoder's initial state, gives the section back on the preserved view
+    (`metadata_block_roundtrip`, `colours_block_roundtrip`: unconditional; `editor_…`, `difficulty_…`, `general_…`,
+    `events_block_roundtrip`: for every lawful number codec);
+  * file level for those sections: `records_roundtrip`.
+  * layer 3 in part: `circle_rt`, `spinner_rt`, `hold_rt` (one line, any decoder state); layer 4 in part:
+    `samples_bank_info_rt` (`get_sample_bank` against `read_custom_sample_banks`) and `samples_rt` (names and banks of a
+    sample list in the decoder's shape come back through `convert_sound_type`).
+  Still only statements (evaluated by the `rt` oracle and the three-way `rt` correspondence): sliders (path string, node
+  samples), timing points (layer 5 of DESIGN 5.2),
+  the map-level assembly over all objects, and hence the full `roundtrip_statement`.
 -/
 import RosuModel.Model.Encode
 import RosuModel.Props.C11
+import RosuModel.Lemmas.RtFile
+import RosuModel.Lemmas.RtObjects
 namespace Rosu.C02
-open Rosu Encode
+open Rosu Encode EncodeLines C11
 
 theorem trim_cons_space (v : Str) : trim (' ' :: v) = trim v := by
   simp [trim, trimStart, isWs]
@@ -18,5 +34,199 @@ theorem kvSplit_kvLine (key v : Str) (hk : ':' ∉ key) :
   rw [this, C11.value_is_after_first_colon key _ hk, trim_cons_space]
 
 example : kvSplit (str "Title: Re:Zero // x") = (str "Title", str "Re:Zero // x") := by decide
+
+/-- **kv_line_roundtrip** (layer 1): the line as the reader delivers it (end-trimmed) splits into exactly the key
+and the value, for every self-trimmed value — an empty one included (`Title: ` arrives as `Title:`). -/
+theorem kv_line_roundtrip (key v : Str) (hk : ':' ∉ key) (hkt : trim key = key) (hv : trim v = v) :
+    kvSplit (trimEnd (key ++ str ": " ++ v)) = (key, v) := by
+  have : key ++ str ": " ++ v = kvl key v := by simp [kvl, str]
+  rw [this]
+  exact kvSplit_trimEnd_kvl key v hk hkt hv
+
+example : kvSplit (trimEnd (str "Title" ++ str ": " ++ [])) = (str "Title", []) :=
+  kv_line_roundtrip _ _ (by decide) (by decide) (by decide)
+
+/-- **integers survive `Display` / `FromStr`** — the model's own integer codec, no hypothesis. -/
+theorem int_display_parse :
+    (∀ n : Nat, parseDigits (decDigits n) = some n) ∧
+    (∀ v : Int, i32Min ≤ v → v ≤ i32Max → i32FromStr (intDigits v) = some v) ∧
+    (∀ v : Int, -i32Max ≤ v → v ≤ i32Max → i32Parse (intDigits v) = some v) ∧
+    (∀ n : Nat, n ≤ 255 → u8FromStr (decDigits n) = some n) :=
+  ⟨parseDigits_decDigits, i32FromStr_intDigits, i32Parse_intDigits, u8FromStr_decDigits⟩
+
+/-- printed integers contain only digits and a leading `-`: no separator, no white space, equal to their own trim. -/
+theorem int_display_clean (v : Int) :
+    (∀ c ∈ intDigits v, isDig c = true ∨ c = '-') ∧ trim (intDigits v) = intDigits v ∧
+    ',' ∉ intDigits v ∧ ':' ∉ intDigits v ∧ '|' ∉ intDigits v ∧ '\n' ∉ intDigits v ∧ ' ' ∉ intDigits v ∧ '/' ∉ intDigits v :=
+  ⟨intDigits_chars v, trim_intDigits v, intDigits_not_mem v _ (by decide), intDigits_not_mem v _ (by decide),
+   intDigits_not_mem v _ (by decide), intDigits_not_mem v _ (by decide), intDigits_not_mem v _ (by decide),
+   intDigits_not_mem v _ (by decide)⟩
+
+/-! ### layer 2: the record sections -/
+
+/-- **[Metadata]**: all ten fields; non-positive ids (not written) come back as −1 / 0. -/
+theorem metadata_block_roundtrip (d : Metadata) (h : RtMetadata.RepMetadata d) :
+    Accepts parseMetadata Metadata.default (RtMetadata.decodedLines d) ∧
+    runSection parseMetadata Metadata.default (RtMetadata.decodedLines d) = RtMetadata.preservedMetadata d :=
+  ⟨(RtMetadata.metadata_block_roundtrip d h).2.1, (RtMetadata.metadata_block_roundtrip d h).2.2⟩
+
+example : runSection parseMetadata Metadata.default (RtMetadata.decodedLines RtMetadata.sample) = RtMetadata.sample := by decide
+
+/-- **[Colours]**: combo colours in order, custom colours by name; alpha is not carried (255 is stored). -/
+theorem colours_block_roundtrip (c : Colors) (h : RtColours.RepColors c) :
+    Accepts parseColors Colors.default (RtColours.decodedLines c) ∧
+    runSection parseColors Colors.default (RtColours.decodedLines c) = RtColours.preservedColors c :=
+  ⟨(RtColours.colours_block_roundtrip c h).2.1, (RtColours.colours_block_roundtrip c h).2.2⟩
+
+/-- on decoded maps (alpha 255 everywhere) the colours come back unchanged. -/
+theorem colours_block_roundtrip_decoded (c : Colors) (h : RtColours.RepColors c)
+    (h1 : ∀ x ∈ c.customComboColors, x.a = 255) (h2 : ∀ x ∈ c.customColors, x.color.a = 255) :
+    runSection parseColors Colors.default (RtColours.decodedLines c) = c := by
+  rw [(colours_block_roundtrip c h).2, RtColours.preservedColors_of_opaque c h1 h2]
+
+example : runSection parseColors Colors.default (RtColours.decodedLines RtColours.sample) = RtColours.sample := by decide
+
+section
+variable {F P : Type} [Scalar F] [Scalar P] {RF : F → Prop} {RP : P → Prop}
+
+/-- **[Editor]**, for every lawful codec: all five fields. -/
+theorem editor_block_roundtrip (LF : CodecLaws F RF) (e : Editor F) (h : RtEditor.RepEditor RF e) :
+    Accepts parseEditor (Editor.default : Editor F) (RtEditor.decodedLines e) ∧
+    runSection parseEditor Editor.default (RtEditor.decodedLines e) = e :=
+  ⟨(RtEditor.editor_block_roundtrip LF e h).2.1, (RtEditor.editor_block_roundtrip LF e h).2.2⟩
+
+/-- **[Difficulty]**, for every lawful pair of codecs: all six values (slider multiplier / tick rate inside their clamps). -/
+theorem difficulty_block_roundtrip (LF : CodecLaws F RF) (LP : CodecLaws P RP) (d : Difficulty F P)
+    (h : RtDifficulty.RepDifficulty RF RP d) :
+    Accepts parseDifficulty (DifficultyState.create : DifficultyState F P) (RtDifficulty.decodedLines d) ∧
+    (runSection parseDifficulty (DifficultyState.create : DifficultyState F P) (RtDifficulty.decodedLines d)).difficulty = d :=
+  ⟨(RtDifficulty.difficulty_block_roundtrip LF LP d h).2.1, (RtDifficulty.difficulty_block_roundtrip LF LP d h).2.2⟩
+
+/-- **[General]**, under the codec laws: everything except `default_sample_bank` / `default_sample_volume`, with
+`special_style` outside mania and a non-positive `countdown_offset` excluded (`preservedGeneral`). -/
+theorem general_block_roundtrip (LI : IntPrintLaw F) (LP : CodecLaws P RP) (g : GeneralState F P) (ss : SampleBank)
+    (h : RtGeneral.RepGeneral RP g) :
+    Accepts RtGeneral.generalStep (GeneralState.default : GeneralState F P) (RtGeneral.decodedLines g ss) ∧
+    runSection RtGeneral.generalStep (GeneralState.default : GeneralState F P) (RtGeneral.decodedLines g ss) =
+      RtGeneral.preservedGeneral g ss :=
+  ⟨(RtGeneral.general_block_roundtrip LI LP g ss h).2.1, (RtGeneral.general_block_roundtrip LI LP g ss h).2.2⟩
+
+/-- **[Events]**, for every lawful codec: background file and breaks (with `start ≤ end` as `f64::max` sees it). -/
+theorem events_block_roundtrip (LF : CodecLaws F RF) (e : Events F) (h : RtEvents.RepEvents RF e) :
+    Accepts parseEvents (Events.default : Events F) (RtEvents.decodedLines e) ∧
+    runSection parseEvents (Events.default : Events F) (RtEvents.decodedLines e) = e :=
+  ⟨(RtEvents.events_block_roundtrip LF e h).2.1, (RtEvents.events_block_roundtrip LF e h).2.2⟩
+
+/-- the laws are satisfiable: the toy codec (`print` = `Display for i32`, `parse` = `FromStr for i32`). -/
+theorem laws_satisfiable : CodecLaws ZC ZC.Rep ∧ IntPrintLaw ZC := ⟨ZC.laws, ZC.intPrintLaw⟩
+
+example : runSection parseEditor Editor.default (RtEditor.decodedLines RtEditor.sample) = RtEditor.sample :=
+  (editor_block_roundtrip ZC.laws _ RtEditor.sample_rep).2
+example : (runSection parseDifficulty DifficultyState.create (RtDifficulty.decodedLines RtDifficulty.sample)).difficulty = RtDifficulty.sample :=
+  (difficulty_block_roundtrip ZC.laws ZC.laws _ RtDifficulty.sample_rep).2
+example : runSection parseEvents Events.default (RtEvents.decodedLines RtEvents.sample) = RtEvents.sample :=
+  (events_block_roundtrip ZC.laws _ RtEvents.sample_rep).2
+example := general_block_roundtrip ZC.intPrintLaw ZC.laws RtGeneral.sample SampleBank.soft RtGeneral.sample_rep
+
+variable [Cvt P F] [Trig F] [Trig P]
+
+/-- **records_roundtrip** — file level, the six record sections: encode a map whose record sections are
+representable (under the codec laws; the two list blocks being LF-terminated record lines), read the UTF-8 bytes
+back with the `Beatmap` decoder: reading succeeds, and whenever finalisation succeeds the re-decoded map has the
+same format version, general (preserved view), editor, metadata (preserved view), difficulty, events and colours
+(alpha 255). -/
+theorem records_roundtrip (LF : CodecLaws F RF) (LP : CodecLaws P RP) (LI : IntPrintLaw F) (m : Beatmap F P)
+    (hm : RtFile.RepRecords RF RP m) (t : Str) (T H : List Str) (h : encode m = .ok t)
+    (hT : encodeTimingPoints m = .ok (unlines (str "[TimingPoints]" :: T)))
+    (hH : encodeHitObjects m = .ok (unlines (str "[HitObjects]" :: H)))
+    (sT : RtFile.ListBlockShape T) (sH : RtFile.ListBlockShape H) :
+    ∃ st : BeatmapState F P, decodeBytes beatmapDecoder (utf8Encode t) = .ok st ∧
+      ∀ m2 : Beatmap F P, st.finish = .ok m2 →
+        m2.formatVersion = m.formatVersion ∧
+        m2.general = RtGeneral.preservedGeneral m.general (RtGeneral.sampleSetOf m.controlPoints) ∧
+        m2.editor = m.editor ∧ m2.metadata = RtMetadata.preservedMetadata m.metadata ∧ m2.difficulty = m.difficulty ∧
+        m2.events = m.events ∧ m2.colors = RtColours.preservedColors m.colors :=
+  RtFile.decoded_records_roundtrip LF LP LI m hm t T H h hT hH sT sH
+
+end
+
+/-! ### layer 3 (part): circle, spinner and hold lines -/
+
+section
+variable {F P : Type} [Scalar F] [Scalar P] [Cvt P F] [Trig F] [Trig P] {RF : F → Prop} {RP : P → Prop}
+
+/-- **circle_rt**: the line written for a circle decodes, in any state, to a circle at the same start time and position,
+with the same combo offset when it starts a combo, `new_combo` or-ed with the decoder's forcing rule (first object /
+after a spinner), and the samples derived from the same hit-sound byte and bank info (`samples_bank_info_rt`). -/
+theorem circle_rt (LF : CodecLaws F RF) (LP : CodecLaws P RP) (mode : GameMode) (h : HitObject F P) (c : HitObjectCircle P)
+    (hk : h.kind = .circle c) (hr : RtObjects.RepCircle RF RP mode h c) (st : HOCore F P) :
+    encodeObject mode h = .ok (RtObjects.circleLine mode h c ++ EncodeLines.nl) ∧
+    parseHitObjectLine mode st (trimEnd (RtObjects.circleLine mode h c)) =
+      (RtObjects.pushed st 1 h.startTime
+        (.circle ⟨c.pos, st.lastObject.isNone || lastWasSpinner st || c.newCombo, if c.newCombo then c.comboOffset else 0⟩)
+        (RtObjects.decodedSamples h.samples mode), true) :=
+  ⟨(RtObjects.circle_line_roundtrip LF LP mode h c hk hr st).1, (RtObjects.circle_line_roundtrip LF LP mode h c hk hr st).2.2.2⟩
+
+/-- **spinner_rt**: same start time, duration (through `max(end − start, 0)`, a hypothesis on the two values) and
+`new_combo`; the position is always the centre. -/
+theorem spinner_rt (LF : CodecLaws F RF) (LP : CodecLaws P RP) (mode : GameMode) (h : HitObject F P) (sp : HitObjectSpinner F P)
+    (hk : h.kind = .spinner sp) (hr : RtObjects.RepSpinner RF RP mode h sp) (st : HOCore F P) :
+    encodeObject mode h = .ok (RtObjects.spinnerLine mode h sp ++ EncodeLines.nl) ∧
+    parseHitObjectLine mode st (trimEnd (RtObjects.spinnerLine mode h sp)) =
+      (RtObjects.pushed st 8 h.startTime (.spinner ⟨⟨(512 : P) / 2, (384 : P) / 2⟩, sp.duration, sp.newCombo⟩)
+        (RtObjects.decodedSamples h.samples mode), true) :=
+  ⟨(RtObjects.spinner_line_roundtrip LF LP mode h sp hk hr st).1, (RtObjects.spinner_line_roundtrip LF LP mode h sp hk hr st).2.2.2⟩
+
+/-- **hold_rt**: same start time, column coordinate and duration (through `max(start, end) − start`). -/
+theorem hold_rt (LF : CodecLaws F RF) (LP : CodecLaws P RP) (mode : GameMode) (h : HitObject F P) (ho : HitObjectHold F P)
+    (hk : h.kind = .hold ho) (hr : RtObjects.RepHold RF RP mode h ho) (st : HOCore F P) :
+    encodeObject mode h = .ok (RtObjects.holdLine mode h ho ++ EncodeLines.nl) ∧
+    parseHitObjectLine mode st (trimEnd (RtObjects.holdLine mode h ho)) =
+      (RtObjects.pushed st 128 h.startTime (.hold ⟨ho.posX, ho.duration⟩) (RtObjects.decodedSamples h.samples mode), true) :=
+  ⟨(RtObjects.hold_line_roundtrip LF LP mode h ho hk hr st).1, (RtObjects.hold_line_roundtrip LF LP mode h ho hk hr st).2.2.2⟩
+
+end
+
+/-- **samples_bank_info_rt** (layer 4, the bank-info half): `read_custom_sample_banks` applied to what `get_sample_bank`
+writes gives back the normal bank, the addition bank (falling back to the normal bank when `None`), the custom bank
+index, the volume (negative read as 0) and the file name — no hypothesis on floats. -/
+theorem samples_bank_info_rt (samples : List HitSampleInfo) (mode : GameMode) (hs : RtObjects.RepSamples samples mode) :
+    ({} : SampleBankInfo).readCustomSampleBanks (splitOn ':' (getSampleBank samples false mode)) false =
+      (RtObjects.bankInfoFor samples mode, true) := by
+  rw [RtObjects.getSampleBank_eq]
+  exact RtObjects.read_bankStr _ _ _ _ _ hs.file.noColon hs.custom hs.volume
+
+example := samples_bank_info_rt RtObjects.sampleSamples GameMode.mania (RtObjects.sampleSamples_rep _)
+
+/-- **samples_rt** (layer 4, the sample-list half): for a sample list in the decoder's own shape — a `Normal` sample with
+a specified bank or a custom file, then any subset of finish / whistle / clap (in this order) sharing a specified
+addition bank — the list the decoder rebuilds from the written hit-sound byte and bank string has the same names and
+banks, in the same order. (Volume, custom-bank index, suffix and layering flag are outside the preserved view.) -/
+theorem samples_rt (mode : GameMode) (first sF sW sC : HitSampleInfo) (fi wh cl : Bool) (ab : SampleBank) (hab : ab ≠ .none)
+    (hfirst : (first.name = .default .normal ∧ first.bank ≠ .none) ∨
+              (∃ f : Str, first.name = .file f ∧ f.isEmpty = false ∧ first.bank = SampleBank.normal))
+    (hF : sF.name = .default .finish) (hFb : sF.bank = ab) (hW : sW.name = .default .whistle) (hWb : sW.bank = ab)
+    (hC : sC.name = .default .clap) (hCb : sC.bank = ab) :
+    (RtObjects.decodedSamples (first :: (RtObjects.optS fi sF ++ RtObjects.optS wh sW ++ RtObjects.optS cl sC)) mode).map RtObjects.nameBank =
+      (first :: (RtObjects.optS fi sF ++ RtObjects.optS wh sW ++ RtObjects.optS cl sC)).map RtObjects.nameBank := by
+  rcases hfirst with ⟨h1, h2⟩ | ⟨f, h1, h2, h3⟩
+  · exact RtObjects.decoded_names_banks_default mode first sF sW sC fi wh cl first.bank ab h1 rfl h2 hab hF hFb hW hWb hC hCb
+  · exact RtObjects.decoded_names_banks_file mode first sF sW sC fi wh cl f ab h1 h2 h3 hab hF hFb hW hWb hC hCb
+
+example : (RtObjects.decodedSamples RtObjects.sampleSamples GameMode.osu).map RtObjects.nameBank =
+    RtObjects.sampleSamples.map RtObjects.nameBank := by decide
+
+/-- the full property, not yet a theorem: for a decoded map with chronological lines, the re-decoded map agrees
+on the whole preserved view — here stated for the parts not covered by `records_roundtrip`: the hit objects (kinds,
+times, positions, combo data, paths, repeat counts, node counts, sample names and banks) and the timing points. -/
+def roundtrip_statement : Prop :=
+  ∀ (F P : Type) [Scalar F] [Scalar P] [Cvt P F] [Trig F] [Trig P] (RF : F → Prop) (RP : P → Prop),
+    CodecLaws F RF → CodecLaws P RP →
+    ∀ (x : List Str) (m : Beatmap F P) (t : Str) (st2 : BeatmapState F P) (m2 : Beatmap F P),
+      (frame beatmapDecoder x : BeatmapState F P).finish = .ok m → encode m = .ok t →
+      decodeBytes beatmapDecoder (utf8Encode t) = .ok st2 → st2.finish = .ok m2 →
+      m2.hitObjects.length = m.hitObjects.length ∧
+      m2.controlPoints.timingPoints.length = m.controlPoints.timingPoints.length ∧
+      (List.zip m2.hitObjects m.hitObjects).all (fun p => Scalar.eq p.1.startTime p.2.startTime) = true
 
 end Rosu.C02
